@@ -626,6 +626,49 @@ def finalText (p : Option Printable) (shapes : List Shape) (formatted : Bytes) :
   | some q => if shapes.any stringRelated then sanitize q formatted else formatted
   | none => formatted
 
+/-! ### the backend's argument store: one per backend, shared by all statements of all threads and loggers -/
+
+/-- `DynamicFormatArgStore _format_args_store`: the decoded values handed to fmt and the
+    `has_string_related_type` flag that gates the sanitiser -/
+structure Store where
+  vals : List Val
+  stringRelated : Bool
+  deriving Repr
+
+def Store.empty : Store := { vals := [], stringRelated := false }
+
+/-- `detail::decode_and_store_args<Args...>(buffer, store)`, the decoder whose address is in every record header.
+    `clearFirst = true` (the code; what the extraction looks for): `store.clear()` unconditionally, then the arguments
+    are decoded into it — the result does not depend on `prev`. `clearFirst = false`: the variant that skips the reset
+    (and the decode) when the statement has no arguments — kept only to show what goes wrong. -/
+def decodeStatementAt (clearFirst : Bool) (shapes : List Shape) (pos : Nat) (bs : Bytes) (prev : Store) :
+    Option (Store × Bytes) :=
+  if !clearFirst && shapes.isEmpty then some (prev, bs)
+  else
+    match decodeL shapes pos bs with
+    | none => none
+    | some (vs, r) => some ({ vals := vs, stringRelated := shapes.any stringRelated }, r)
+
+def decodeStatement : List Shape → Nat → Bytes → Store → Option (Store × Bytes) := decodeStatementAt true
+
+/-- the store the backend is left with after decoding a sequence of records (any threads, any loggers); a record that
+    cannot be decoded leaves the store as it was -/
+def storeAfter (clearFirst : Bool) (s0 : Store) (hist : List (List Shape × Nat × Bytes)) : Store :=
+  hist.foldl (fun st r => ((decodeStatementAt clearFirst r.1 r.2.1 r.2.2 st).map (·.1)).getD st) s0
+
+/-- `_populate_formatted_log_message`: the text handed to the sinks and the number of error-notifier reports.
+    `fmt` = libfmt on the run-time format string and the stored values (`none` = it throws, e.g. "argument not found");
+    on success the text is sanitised iff the store holds a string related argument; on failure the text is the
+    "[Could not format log statement …]" message `err fmtStr` and it is reported once. -/
+def storeText (p : Option Printable) (fmt : Bytes → List Val → Option Bytes) (err : Bytes → Bytes) (fmtStr : Bytes)
+    (st : Store) : Bytes × Nat :=
+  match fmt fmtStr st.vals with
+  | some t =>
+    ((match p with
+      | some q => if st.stringRelated then sanitize q t else t
+      | none => t), 0)
+  | none => (err fmtStr, 1)
+
 /-! ### frontend events of one log call (C11) -/
 
 inductive Event
